@@ -3,7 +3,7 @@
 # a scratch worktree of /repo carries the change, a scratch copy of /verif (harness path dependency
 # redirected) runs the checks with VERIF_REPO pointing at it.  Everything lives under /tmp/iso and is
 # removed at the end.  (Used while a long background run occupies /repo itself.)
-ISO=/tmp/iso
+ISO=${ISO:-/tmp/iso}   # set ISO=<dir> to evaluate several changes side by side
 rm -rf $ISO; mkdir -p $ISO
 git -C /repo worktree prune
 git -C /repo worktree add -q $ISO/repo HEAD || exit 2
